@@ -164,7 +164,7 @@ H_REPORT = Harness(
                      "partition": ["W", "N", "E", "D", "retry", "retres", "dup", "restart"],
                      "filter": (lambda f: (f["W"] <= 2 or (f["N"] <= 3 and f["D"] <= 1 and f["E"] <= 1)) and (f["E"] <= 1 or (f["N"] <= 3 and f["D"] <= 1))
                                 and (f["D"] <= 1 or f["N"] <= 3) and (f["dup"] == 0 or (f["N"] in (2, 3) and f["D"] == 1 and f["retres"] == 1 and f["W"] == 2))
-                                and (f["restart"] == 0 or (f["N"] <= 2 and f["W"] <= 2 and f["D"] <= 1 and f["E"] <= 1 and f["dup"] == 0 and f["retres"] == 1))),
+                                and (f["restart"] == 0 or (f["N"] <= 2 and f["W"] <= 2 and f["D"] <= 1 and f["E"] == 0 and f["dup"] == 0 and f["retres"] == 1 and f["retry"] == 1))),
                      "extra_pre": ["(poison > 1) + (failing > 1) <= 1",
                                    # the largest cells (three workers with a death, or two deaths, on three inputs) keep the quick-tier menus of poison/failing
                                    "(W < 3 and D < 2) or N < 3 or (poison <= 1 and failing <= 1)",
